@@ -89,6 +89,40 @@ def scenario_versions(root):
     return os.path.join(root, "m"), ["generate"], "valid-with-versions"
 
 
+def scenario_unions_everywhere(root):
+    """unions in every place a union can sit (a generated class per union in Python, C++ and MATLAB), named and inline; one file per class in MATLAB"""
+    w(os.path.join(root, "m", "_package.yml"), "namespace: Un\n" + MANIFEST_OUT)
+    w(os.path.join(root, "m", "model.yml"), """A: [int, string]
+B: !union
+  i: int
+  f: float
+R: !record
+  fields:
+    a: A
+    b: B
+    c: [int, float]
+    d: [null, int, string]
+    e: !vector
+      items: [string, float]
+    m: !map
+      keys: string
+      values: [int, double]
+P: !protocol
+  sequence:
+    r: R
+    s: !stream
+      items: [R, int]
+""")
+    return os.path.join(root, "m"), ["generate"], "unions-everywhere"
+
+
+def scenario_named_union_holding_a_union(root):
+    """witness of an open finding: a named union one of whose cases holds another union - the MATLAB back end writes both classes to <alias>.m"""
+    w(os.path.join(root, "m", "_package.yml"), "namespace: Un\n" + MANIFEST_OUT)
+    w(os.path.join(root, "m", "model.yml"), "U: !union\n  i: int\n  v: !vector\n    items: [string, float]\nP: !protocol\n  sequence:\n    a: U\n")
+    return os.path.join(root, "m"), ["generate"], "matlabnestedunionwitness-named-union-holding-a-union"
+
+
 def scenario_invalid(root):
     """many independent errors, several at the same position, from map-ranging validation passes."""
     text = """E: !enum
@@ -175,7 +209,7 @@ def run(report, tier, seed):
         ybin = vlib.build_yardl(sc)
         home = sc.path("home")
         os.makedirs(home, exist_ok=True)
-        scen = [scenario_versions, scenario_invalid, scenario_invalid_generics, scenario_invalid_evolution, scenario_bad_config]
+        scen = [scenario_versions, scenario_unions_everywhere, scenario_named_union_holding_a_union, scenario_invalid, scenario_invalid_generics, scenario_invalid_evolution, scenario_bad_config]
         found = False
         for i, mk in enumerate(scen):
             found |= _repeat(report, ybin, home, *mk(sc.path(f"s{i}")), n_runs=n_runs, seed=seed)
